@@ -311,10 +311,11 @@ def run(rep, tier, seed):
         rep.compared += 1
         if r != got and len(rep.broken) < 5:
             rep.broken.append('correspondence C04/prefix: table %r text %r model %r implementation %r' % (T, text, r, got))
-    # two licenses whose aliases differ only by the white space around a parenthesis: the constructor compares aliases as
-    # space-normalised texts and accepts the table, the matcher stores both under the same words and the later one wins
-    # (known finding D11: reported under its own key, any other failure of this probe under another)
-    for first, second in ((('A', 'gpl (v2)'), ('B', 'gpl(v2)')), (('B', 'gpl(v2)'), ('A', 'gpl (v2)'))):
+    # two licenses whose aliases differ only by the white space around a parenthesis (defect D11, repaired: the constructor
+    # used to compare aliases as space-normalised texts and accept the table, while the matcher stores both under the same
+    # words and the later one won). A table that is accepted must resolve every alias to the license that declares it.
+    for first, second in ((('A', 'gpl (v2)'), ('B', 'gpl(v2)')), (('B', 'gpl(v2)'), ('A', 'gpl (v2)')),
+                          (('A', 'x ( y )'), ('B', 'X(Y)')), (('A', '(x) y'), ('B', '( X )\ty'))):
         T = [(first[0], [first[1]], False), (second[0], [second[1]], False)]
         rep.case(('paren-spacing', repr(T)), nontrivial=True, sample=None)
         rep.count('parenthesis_spacing_alias_pairs')
